@@ -145,8 +145,47 @@ def special_c16(pid, tier, seed, st, res, chk):
                 res["oracle_fail"].append({"op": "cold-start burst", "impl": chk.short(p.stderr, 800), "tag": "conc-crash", "reason": "exit %d" % p.returncode})
             if bad_bursts >= 2:
                 break
+    # extension steps: the shared QR encoder's polynomial cache is first brought to exactly degree a by one call, then 8
+    # goroutines at once need the next larger degree b that QR uses — under the race detector, for every consecutive
+    # pair of QR check-codeword counts (seed y06: an in-place append outside the lock races only at the 16 -> 17 step)
+    deg_ops = [(7, "qr %s 0 3" % ("61" * 10)), (10, "qr %s 1 3" % ("61" * 10)), (13, "qr %s 2 3" % ("61" * 10)),
+               (15, "qr %s 0 3" % ("61" * 40)), (16, "qr %s 1 3" % ("61" * 20)), (17, "qr %s 3 3" % ("61" * 5)),
+               (18, "qr %s 2 3" % ("61" * 28)), (20, "qr %s 0 3" % ("61" * 60)), (22, "qr %s 2 3" % ("61" * 15)),
+               (24, "qr %s 1 3" % ("61" * 70)), (26, "qr %s 1 3" % ("61" * 35)), (28, "qr %s 3 3" % ("61" * 10)),
+               (30, "qr %s 0 3" % ("61" * 200))]
+    step_trials = 3 if tier == "quick" else 25
+    step_runs = step_bad = 0
+    if have_race:
+        seqr = dict(zip([o for _, o in deg_ops], chk.run_impl([o for _, o in deg_ops])))
+        for (a, wa), (b, ob) in zip(deg_ops, deg_ops[1:]):
+            lines_in = ["warm " + wa] + [ob] * 8
+            for trial in range(step_trials):
+                step_runs += 1
+                env = dict(os.environ, GOMAXPROCS=str([2, 4, 16][trial % 3]))
+                try:
+                    p = subprocess.run([race, "conc", "8"], input="\n".join(lines_in) + "\n", stdout=subprocess.PIPE,
+                                       stderr=subprocess.PIPE, text=True, env=env, timeout=300)
+                except subprocess.TimeoutExpired:
+                    res["oracle_fail"].append({"op": "extension step %d->%d" % (a, b), "impl": "", "tag": "conc-deadlock", "reason": "timeout"})
+                    step_bad += 1
+                    break
+                out_lines = [l for l in p.stdout.split("\n") if l and not l.startswith("#conc")]
+                wrong = [l for l in out_lines[1:] if l != seqr.get(ob)]
+                if "DATA RACE" in p.stderr:
+                    res["oracle_fail"].append({"op": "warm " + wa + " ; 8 x " + ob, "impl": chk.short(p.stderr, 1500), "tag": "conc-race",
+                                               "reason": "data race when 8 goroutines extend the generator cache from degree %d to %d" % (a, b)})
+                    step_bad += 1
+                    break
+                if wrong or p.returncode != 0:
+                    res["oracle_fail"].append({"op": "warm " + wa + " ; 8 x " + ob, "impl": chk.short(wrong[0] if wrong else p.stderr, 800), "tag": "conc-result",
+                                               "reason": "extension step %d->%d: a concurrent result differs from the sequential one / the process failed" % (a, b)})
+                    step_bad += 1
+                    break
+            if step_bad >= 2:
+                break
     res.setdefault("extra", {})["schedules"] = {"runs": runs, "race_binary": have_race, "cold_start_bursts": reps,
-                                               "bursts_failing": bad_bursts, "t_s": round(time.time() - t0, 1)}
+                                               "bursts_failing": bad_bursts, "extension_step_runs": step_runs,
+                                               "extension_steps_failing": step_bad, "t_s": round(time.time() - t0, 1)}
 
 PROPS = {
     "C15": {"claim": "Purity: every encoder is modelled as a pure function; that this is faithful is carried by generated syntactic facts (no package-level variable written after init, no struct field aliasing a slice parameter, the RS cache only touched inside the locked getPolynomial) plus the theorem that Encode is independent of the cache history and that the map-order dependent searches have unique answers; the Go side is exercised with long mixed histories in one process against fresh-process runs and with post-hoc mutation of []byte arguments.",
